@@ -228,13 +228,13 @@ Section Go.
     Definition go_node (r : routine) (inputs : list (string * D)) : result (ctree D) :=
       match r with
       | Routine name type ips locals links ports resources conns rep constraints children =>
-          (* new_constraints = evaluate_constraints(routine.constraints, inputs) *)
-          do cstrs' <- eval_constraints inputs constraints;
           (* local_variables = _compile_local_variables(...) *)
           do lorder <- of_opt (EInternal 4) (local_order locals);
           do lv <- compile_locals lorder locals inputs [];
           (* parameter_map[None] = {**local_variables, **inputs} *)
           let pmn0 := over lv inputs in
+          (* new_constraints = evaluate_constraints(routine.constraints, {**local_variables, **inputs}) *)
+          do cstrs' <- eval_constraints pmn0 constraints;
           let pm0 : pmap := (pmn0, map (fun c => (rname c, [])) children) in
           do pm1 <- compile_links pmn0 links pm0;
           (* compiled_ports = evaluate_ports(input/through ports, parameter_map[None]) *)
